@@ -762,4 +762,171 @@ Proof.
            ++ intros pk. apply rmv_chan.
         -- eapply (Hkm k); eauto. cbn. rewrite Er. by apply elem_In.
 Qed.
+
+(* ------------------------------------------------------------------ ... and its new body is affine again *)
+Lemma affr_find l bs pay K sh :
+  find_branch l bs = Some (pay, K) -> (affr_bp bs -> affr (Some (ident pay)) K) /\ (affr_bc sh bs -> affr sh K).
+Proof.
+  induction bs as [|l' p' k' r IH]; simpl; [discriminate|]. destruct (String.eqb l' l).
+  - intros [= -> ->]. tauto.
+  - intros H. destruct (IH H). tauto.
+Qed.
+
+Lemma prov_pdes rs n : prov_name None rs n -> pdes None n = true /\ uname None n = [] /\ is_self n = true.
+Proof.
+  intros Hp. destruct (uname_prov None rs n Hp) as [H1 H2]. split; [done|]. split; [done|].
+  destruct Hp as [_ [[H _]|[_ H]]]; [done|discriminate].
+Qed.
+
+Lemma chan_ty_chan Δ n t : chan_ty teq Δ n t -> exists kc, chan n = Some kc /\ uname None n = [KC kc] /\ name_chans n = [kc].
+Proof.
+  intros H. destruct (client_closed teq Δ n t H) as [_ (kc & t' & Hc & _)]. exists kc. unfold uname, name_chans. by rewrite Hc.
+Qed.
+
+Lemma lin_recv_step Δ c p pp k st m e :
+  cfg_typed D F teq Δ c -> Topo c -> LinCfg c -> procs c !! p = Some pp ->
+  action_of Async D pp = ARecv k -> chans c !! k = Some st -> ch_buf st = Some m ->
+  on_message p pp m = EOk e -> core_recv pp m ->
+  exists pp1 cl, e = Eff (Continue pp1) [] [] cl [] /\ affr None (pr_body0 pp1).
+Proof.
+  intros Hc Ht Hl Hp Ha Hk Hb He [Hgc Hcore].
+  assert (Hmsg : obj_in c (OMsg k m)) by (exists st; done).
+  assert (Hlin : affr None (pr_body0 pp)) by (exact (lc_procs c Hl p pp Hp)).
+  assert (Hml : NoDup (refs (OMsg k m))) by (exact (lc_msgs c Hl k st m Hk Hb)).
+  destruct (ct_procs D F teq Δ c Hc p pp Hp) as (s & rs & Hne & Hprovs & Hty).
+  pose proof (ct_msgs D F teq Δ c Hc k st m Hk Hb) as (Tm & HTm & Hmt).
+  pose proof (recv_view_of pp k Hne Ha) as Hview.
+  (* a channel the message refers to does not occur in the receiver *)
+  assert (Hfreshc : forall j, j ∈ refs (OMsg k m) -> ~ In j (form_chans (pr_body0 pp))).
+  { intros j Hj Hin. assert (E : OProc p pp = OMsg k m); [|discriminate].
+    eapply (topo_ref_unique c Ht _ _ j); eauto. cbn. by apply elem_In. }
+  (* when the receiver owns k: the type of the body is the type of k *)
+  assert (Hown : k ∈ refs (OMsg k m) -> teq Tm s).
+  { intros Hkr. destruct Hview as [n Hn Hcn _|Hcl]; [|by destruct (Hfreshc k Hkr)].
+    rewrite Hn in Hprovs. apply Forall_inv in Hprovs. destruct Hprovs as (c0 & t' & Hc0 & Ht' & Hteq').
+    rewrite Hcn in Hc0. injection Hc0 as <-. rewrite HTm in Ht'. by injection Ht' as <-. }
+  unfold on_message in He. fold (is_fwd_body pp) in He.
+  destruct (rule_eqb (m_rule m) RFWD && negb (is_fwd_body pp)) eqn:Ereq.
+  { injection He as <-. eexists _, _. split; [reflexivity|]. exact Hlin. }
+  destruct (rule_eqb (m_rule m) RGC && negb (is_fwd_body pp)) eqn:Egc.
+  { apply andb_true_iff in Egc as [Er _]. apply rule_eqb_eq in Er. contradiction. }
+  unfold action_of in Ha.
+  destruct (pr_body0 pp) as [to pay cont|pay cont from k0|to l cont|from bs|x b k0|c0|c0 k0|to from d|x y from k0|fn args pt|to cont|x from k0|c0 k0|l k0] eqn:Eb;
+    try discriminate.
+  - (* FRecv *) destruct (is_self from) eqn:Es.
+    + destruct (rule_eqb (m_rule m) RRCV) eqn:Er; [|discriminate]. apply rule_eqb_eq in Er.
+      injection He as <-. eexists _, _. split; [reflexivity|]. cbn [pr_body0 set_provs_body].
+      rewrite Er in Hmt. destruct Hmt as (A' & B' & md' & Hwm & Hc1 & Hc2).
+      destruct (chan_ty_chan Δ _ _ Hc1) as (kc1 & Hkc1 & _ & Hn1).
+      inversion Hty as [| |? ? ? ? pay' cont' from' k' A B md Hpf Hw Hbp Hbc Hpc Hk0|? ? ? ? ? ? ? ? T A B md Hcf| | | | | | | | | | | | | | | |]; subst.
+      2: { destruct Hcf as [Hcf _]. congruence. }
+      destruct (prov_pdes _ _ Hpf) as (Hpd & _ & _).
+      simpl in Hlin. rewrite Hpd in Hlin. destruct Hlin as [_ Hlin].
+      assert (Hkr : k ∈ refs (OMsg k m)) by (cbn; rewrite Er; set_solver).
+      pose proof (head_of D teq Hteq Tm s _ _ (Hown Hkr) Hwm Hw) as [HA HB].
+      assert (Hf1 : ~ In kc1 (form_chans k0)).
+      { intros Hin. apply (Hfreshc kc1); [cbn; rewrite Er, Hn1; set_solver|]. simpl. apply in_app_iff. by right. }
+      assert (Haf1 : affr (Some (ident cont)) (subst pay (m_c1 m) k0)).
+      { apply (affr_subst D F teq Hteq Δ (delete (ident cont) ∅) (Some (ident cont)) (rs ∖ {[ident pay]} ∖ {[ident cont]}) B k0 pay (m_c1 m) kc1 A (proj1 Hbp) Hkc1);
+          [intros [= E]; by apply Hpc|set_solver|exact Hk0|exact Hf1|exact Hlin]. }
+      assert (Hty1 : typed D F teq Δ (delete (ident cont) ∅) (Some (ident cont)) (rs ∖ {[ident pay]} ∖ {[ident cont]}) B (subst pay (m_c1 m) k0)).
+      { apply (typed_subst D F teq Hteq Δ _ _ _ _ k0 pay (m_c1 m) A (proj1 Hbp));
+          [eapply chan_ty_is_chan; eauto|intros [= E]; by apply Hpc|set_solver|exact Hk0]. }
+      apply (pnames_subst_shadow D F teq Hteq Δ _ _ _ _ cont (proj1 Hbc) (lookup_delete _ _) Hty1). exact Haf1.
+    + destruct (rule_eqb (m_rule m) RSND) eqn:Er; [|discriminate]. apply rule_eqb_eq in Er.
+      injection He as <-. eexists _, _. split; [reflexivity|]. cbn [pr_body0 set_body].
+      rewrite Er in Hmt. destruct Hmt as (A' & B' & md' & Hwm & Hc1 & Hc2).
+      destruct (chan_ty_chan Δ _ _ Hc1) as (kc1 & Hkc1 & _ & Hn1). destruct (chan_ty_chan Δ _ _ Hc2) as (kc2 & Hkc2 & _ & Hn2).
+      inversion Hty as [| |? ? ? ? pay' cont' from' k' A B md Hpf|? ? ? ? ? ? ? ? T A B md Hcf Hw Hbp Hbc Hpc Hs1 Hs2 Hk0| | | | | | | | | | | | | | | |]; subst.
+      { destruct (prov_pdes _ _ Hpf) as (_ & _ & Hsf). congruence. }
+      apply recv_on_inv in Ha as [Hcfrom _].
+      destruct (client_closed teq Δ from T Hcf) as [_ (cf & tf & Hcf1 & Hcf2 & Hcf3)].
+      rewrite Hcfrom in Hcf1. injection Hcf1 as <-. rewrite HTm in Hcf2. injection Hcf2 as <-.
+      pose proof (head_of D teq Hteq Tm T _ _ Hcf3 Hwm Hw) as [HA HB].
+      assert (Hpd : pdes None from = false) by (unfold pdes, initialized; by rewrite Hcfrom).
+      simpl in Hlin. rewrite Hpd in Hlin. destruct Hlin as [_ Hlin].
+      assert (Hf1 : ~ In kc1 (form_chans k0)).
+      { intros Hin. apply (Hfreshc kc1); [cbn; rewrite Er, Hn1; set_solver|]. simpl. apply in_app_iff. by right. }
+      assert (Hf2 : ~ In kc2 (form_chans k0)).
+      { intros Hin. apply (Hfreshc kc2); [cbn; rewrite Er, Hn2; set_solver|]. simpl. apply in_app_iff. by right. }
+      assert (Hk0' : typed D F teq Δ (<[ident pay := A]> (<[ident cont := B]> ∅)) None (rs ∖ {[ident pay]} ∖ {[ident cont]}) s k0).
+      { rewrite insert_commute by auto. exact Hk0. }
+      assert (Haf1 : affr None (subst pay (m_c1 m) k0)).
+      { apply (affr_subst D F teq Hteq Δ (<[ident cont := B]> ∅) None (rs ∖ {[ident pay]} ∖ {[ident cont]}) s k0 pay (m_c1 m) kc1 A (proj1 Hbp) Hkc1);
+          [discriminate|set_solver|exact Hk0'|exact Hf1|exact Hlin]. }
+      assert (Hty1 : typed D F teq Δ (<[ident cont := B]> ∅) None (rs ∖ {[ident pay]} ∖ {[ident cont]}) s (subst pay (m_c1 m) k0)).
+      { apply (typed_subst D F teq Hteq Δ _ _ _ _ k0 pay (m_c1 m) A (proj1 Hbp));
+          [eapply chan_ty_is_chan; eauto|discriminate|set_solver|exact Hk0']. }
+      apply (affr_subst D F teq Hteq Δ ∅ None (rs ∖ {[ident pay]} ∖ {[ident cont]}) s _ cont (m_c2 m) kc2 B (proj1 Hbc) Hkc2);
+        [discriminate|set_solver|exact Hty1| |exact Haf1].
+      intros Hin. apply form_chans_subst in Hin as [Hin|Hin]; [done|]. rewrite Hn1 in Hin. destruct Hin as [->|[]].
+      cbn in Hml. rewrite Er, Hn1, Hn2 in Hml. apply NoDup_cons_iff in Hml as [Hml _]. apply Hml. by left.
+  - (* FCase *) destruct (is_self from) eqn:Es.
+    + destruct (rule_eqb (m_rule m) RBRA) eqn:Er; [|discriminate].
+      destruct (find_branch (m_label m) bs) as [[pay K]|] eqn:Efb; [|discriminate].
+      injection He as <-. eexists _, _. split; [reflexivity|]. cbn [pr_body0 set_provs_body].
+      inversion Hty as [| | | | | |? ? ? ? from' b' bs' md Hpf Hw Hcov Hbr|? ? ? ? ? ? T bs' md Hcf| | | | | | | | | | | |]; subst.
+      2: { destruct Hcf as [Hcf _]. congruence. }
+      destruct (prov_pdes _ _ Hpf) as (Hpd & _ & _).
+      simpl in Hlin. rewrite Hpd in Hlin. destruct Hlin as [_ Hlin].
+      destruct (typed_brs_p_find D F teq Δ ∅ rs bs' bs _ _ _ Hbr Efb) as (A & _ & Hbp & HK).
+      apply (pnames_subst_shadow D F teq Hteq Δ _ _ _ _ pay (proj1 Hbp) (lookup_delete _ _) HK).
+      by apply (affr_find _ _ _ _ None Efb).
+    + destruct (rule_eqb (m_rule m) RSEL) eqn:Er; [|discriminate]. apply rule_eqb_eq in Er.
+      destruct (find_branch (m_label m) bs) as [[pay K]|] eqn:Efb; [|discriminate].
+      injection He as <-. eexists _, _. split; [reflexivity|]. cbn [pr_body0 set_body].
+      rewrite Er in Hmt. destruct Hmt as (bs0 & md' & A' & Hwm & Hfb0 & Hc1 & _).
+      destruct (chan_ty_chan Δ _ _ Hc1) as (kc1 & Hkc1 & _ & Hn1).
+      inversion Hty as [| | | | | |? ? ? ? from' b' bs' md Hpf|? ? ? ? ? ? T bs' md Hcf Hw Hcov Hbr| | | | | | | | | | | |]; subst.
+      { destruct (prov_pdes _ _ Hpf) as (_ & _ & Hsf). congruence. }
+      apply recv_on_inv in Ha as [Hcfrom _].
+      assert (Hpd : pdes None from = false) by (unfold pdes, initialized; by rewrite Hcfrom).
+      simpl in Hlin. rewrite Hpd in Hlin. destruct Hlin as [_ Hlin].
+      destruct (typed_brs_c_find D F teq Δ ∅ None rs s bs' bs _ _ _ Hbr Efb) as (A & _ & Hbp & _ & HK).
+      apply (affr_subst D F teq Hteq Δ ∅ None (rs ∖ {[ident pay]}) s K pay (m_c1 m) kc1 A (proj1 Hbp) Hkc1);
+        [discriminate|set_solver|exact HK| |by apply (affr_find _ _ _ _ None Efb)].
+      intros Hin. apply (Hfreshc kc1); [cbn; rewrite Er, Hn1; set_solver|]. simpl. apply in_app_iff. right.
+      by apply (find_branch_paths _ _ _ _ None Efb).
+  - (* FWait *)
+    destruct (rule_eqb (m_rule m) RCLS) eqn:Er; [|discriminate].
+    injection He as <-. eexists _, _. split; [reflexivity|]. cbn [pr_body0 set_body].
+    simpl in Hlin. tauto.
+  - (* FFwd *)
+    destruct Hcore as [-> Hnf].
+    inversion Hty as [| | | | | | | | | | |? ? ? ? to' from' d' Hpt Hcf| | | | | | | |]; subst.
+    destruct (prov_pdes _ _ Hpt) as (_ & Hut & _).
+    destruct (m_rule m) eqn:Er; try discriminate; try (by destruct Hnf); injection He as <-;
+      (eexists _, _; split; [reflexivity|]); cbn [pr_body0 set_body]; (split; [|exact I]); simpl; rewrite Hut; simpl;
+      (constructor; [|constructor]).
+    + (* SND *) destruct Hmt as (A' & B' & md' & Hwm & Hc1 & Hc2).
+      destruct (chan_ty_chan Δ _ _ Hc1) as (kc1 & _ & Hu1 & Hn1). destruct (chan_ty_chan Δ _ _ Hc2) as (kc2 & _ & Hu2 & Hn2).
+      rewrite Hu1, Hu2. simpl. cbn in Hml. rewrite Er, Hn1, Hn2 in Hml. simpl in Hml.
+      inversion Hml as [|a0 l0 Hni _]; subst. constructor; [|constructor; [simpl; tauto|constructor]].
+      intros [[= E]|[]]. apply Hni. left. done.
+    + (* CLS *) constructor.
+    + (* CST *) destruct Hmt as (fm & tm & A' & Hwm & Hc1 & _).
+      destruct (chan_ty_chan Δ _ _ Hc1) as (kc1 & _ & Hu1 & _). rewrite Hu1. constructor; [simpl; tauto|constructor].
+    + (* SEL *) destruct Hmt as (bs0 & md' & A' & Hwm & Hfb0 & Hc1 & _).
+      destruct (chan_ty_chan Δ _ _ Hc1) as (kc1 & _ & Hu1 & _). rewrite Hu1. constructor; [simpl; tauto|constructor].
+  - (* FShift *) destruct (is_self from) eqn:Es.
+    + destruct (rule_eqb (m_rule m) RSHF) eqn:Er; [|discriminate].
+      injection He as <-. eexists _, _. split; [reflexivity|]. cbn [pr_body0 set_provs_body].
+      inversion Hty as [| | | | | | | | | | | | | | | |? ? ? ? x' from' k' fm tm A Hpf Hw Hbx Hk0|? ? ? ? ? ? ? T fm tm A Hcf| |]; subst.
+      2: { destruct Hcf as [Hcf _]. congruence. }
+      destruct (prov_pdes _ _ Hpf) as (Hpd & _ & _).
+      simpl in Hlin. rewrite Hpd in Hlin. destruct Hlin as [_ Hlin].
+      apply (pnames_subst_shadow D F teq Hteq Δ _ _ _ _ x (proj1 Hbx) (lookup_delete _ _) Hk0). exact Hlin.
+    + destruct (rule_eqb (m_rule m) RCST) eqn:Er; [|discriminate]. apply rule_eqb_eq in Er.
+      injection He as <-. eexists _, _. split; [reflexivity|]. cbn [pr_body0 set_body].
+      rewrite Er in Hmt. destruct Hmt as (fm' & tm' & A' & Hwm & Hc1 & _).
+      destruct (chan_ty_chan Δ _ _ Hc1) as (kc1 & Hkc1 & _ & Hn1).
+      inversion Hty as [| | | | | | | | | | | | | | | |? ? ? ? x' from' k' fm tm A Hpf|? ? ? ? ? ? ? T fm tm A Hcf Hw Hbx Hs1 Hk0| |]; subst.
+      { destruct (prov_pdes _ _ Hpf) as (_ & _ & Hsf). congruence. }
+      apply recv_on_inv in Ha as [Hcfrom _].
+      assert (Hpd : pdes None from = false) by (unfold pdes, initialized; by rewrite Hcfrom).
+      simpl in Hlin. rewrite Hpd in Hlin. destruct Hlin as [_ Hlin].
+      apply (affr_subst D F teq Hteq Δ ∅ None (rs ∖ {[ident x]}) s k0 x (m_c1 m) kc1 A (proj1 Hbx) Hkc1);
+        [discriminate|set_solver|exact Hk0| |exact Hlin].
+      intros Hin. apply (Hfreshc kc1); [cbn; rewrite Er, Hn1; set_solver|]. simpl. apply in_app_iff. by right.
+Qed.
 End Step.
